@@ -9,7 +9,7 @@ sys.path.insert(0, os.path.join(os.path.dirname(os.path.abspath(__file__)), "pro
 import vlib, c16
 vlib.build_harness()
 chk = vlib.Check("C16", "quick", 1)
-srcs = c16.sources(chk)
+srcs = c16.sources(chk, derived="all")
 res = c16.requirement_verdicts(srcs)
 out = {n: {t: {"full": e["full"], "required": sorted(e["required"])} for t, e in bt.items()} for n, bt in res.items()}
 json.dump(out, open(c16.REQ_FILE, "w"), indent=1, sort_keys=True)
